@@ -1,41 +1,52 @@
 (** C24 — The task scheduler dispatches each due run once, in order, and stops on release.
     Property theorems only.  [nxt] = Schedule.Next (cron library), [wk] = worker of a
     task id (xxhash mod #workers), [parked] = which tasks' runs stay inside Execute
-    until a [Done] event; all three are universally quantified.  [fx = false] is the
-    code as it is, [fx = true] the code with the sign of the timer re-arm repaired.
+    until a [Done] event; all three are universally quantified.  [fx = true] is the
+    code as it is now (main-loop branch "minimum not due yet" repaired: s.when =
+    it.When(); timer.Reset(it.When().Sub(ts))), [fx = false] the code before the repair.
 
     FULL STATEMENTS and what is proved:
+    - no_spin: proved for ALL histories ([C24_no_spin]); the pre-repair counterexample
+      is kept as an Example.
+    - release_stops, no_self_overlap: proved for ALL histories.
     - runs_in_order_once (forall evs, per task the executed scheduled-times are exactly
       the consecutive Next-iterates that have come due, each once, increasing):
-      proved only as its kernel [C24_dispatch_is_pending_next_partial] (every hand-over
-      of process() is the item's pending time, due, and the item is advanced to
-      Next of it, which is later); the whole-trace statement [spec_safe] is evaluated on
-      every trace of the real scheduler by the correspondence judge, not proved.
-    - release_stops, no_self_overlap: proved for ALL histories.
-    - when_is_min_due: refuted ([_refuted]); no_spin: refuted ([_refuted]) and proved
-      for the repaired sign ([C24_no_spin_fixed]). *)
+      proved only as its kernel [C24_dispatch_is_pending_next_partial]; the whole-trace
+      statement [spec_safe] is evaluated on every trace of the real scheduler by the
+      correspondence judge, not proved.
+    - when_is_min_due (after every history s.when is the due time of the minimum item):
+      still REFUTED ([_refuted]): Release / re-Schedule of the earliest task do not
+      recompute s.when, which stays at the removed item's time until the timer armed
+      for it fires.  Proved instead ([_partial]): whenever the loop goroutine has run
+      (timer fire or busy-wait re-evaluation) s.when is the minimum's due time. *)
 From Verif Require Import Base.Prelude Model.C24 Proofs.C24.
 
 Definition wk0 (id : N) : N := id.
 Definition nopark (id : N) : bool := false.
 
-(** no_spin, full statement: forall evs, the loop never re-arms its timer with a
-    non-positive delay while nothing is due.  Refuted: Schedule A (every 10), Schedule B
-    (every 100), Release A, clock reaches 10: the stale timer fires, the minimum (B, due
-    at 100) is not due and the loop re-arms with 10 - 100 = -90 seconds. *)
-Theorem C24_no_spin_refuted :
-  exists evs, existsb b_neg (trace every_next wk0 nopark false init evs) = true.
-Proof.
-  exists [Schedule 1 10 0 0; Schedule 2 100 0 0; Release 1; Advance 10].
-  vm_compute. reflexivity.
-Qed.
-Print Assumptions C24_no_spin_refuted.
+(** no_spin: the loop never re-arms its timer with a non-positive delay, whatever the
+    history, the schedules and the worker assignment. *)
+Theorem C24_no_spin :
+  forall nxt wk parked evs st,
+    forallb (fun o => negb (b_neg o)) (trace nxt wk parked true st evs) = true.
+Proof. exact trace_no_neg. Qed.
+Print Assumptions C24_no_spin.
+
+(** Before the repair: Schedule A (every 10), Schedule B (every 100), Release A, clock
+    reaches 10: the stale timer fires, the minimum (B, due at 100) is not due and the
+    loop re-armed with 10 - 100 = -90 seconds (busy loop on a real clock). *)
+Example C24_before_fix_spin_counterexample :
+  existsb b_neg (trace every_next wk0 nopark false init
+                   [Schedule 1 10 0 0; Schedule 2 100 0 0; Release 1; Advance 10]) = true
+  /\ existsb b_neg (trace every_next wk0 nopark true init
+                   [Schedule 1 10 0 0; Schedule 2 100 0 0; Release 1; Advance 10]) = false.
+Proof. split; vm_compute; reflexivity. Qed.
 
 (** when_is_min_due, full statement: after every history [s.when] is the due time of
-    the minimum item.  Refuted by the same prefix: after Release A, When() still is A's
-    time 10 while the only pending run is B's at 100. *)
+    the minimum item.  Refuted: after Release A, When() still is A's time 10 while the
+    only pending run is B's at 100 (until the clock reaches 10). *)
 Theorem C24_when_is_min_due_refuted :
-  exists evs, let st := run every_next wk0 nopark false init evs in
+  exists evs, let st := run every_next wk0 nopark true init evs in
     swhen st <> option_map i_when (hd_error (q st)).
 Proof.
   exists [Schedule 1 10 0 0; Schedule 2 100 0 0; Release 1].
@@ -43,11 +54,14 @@ Proof.
 Qed.
 Print Assumptions C24_when_is_min_due_refuted.
 
-Theorem C24_no_spin_fixed :
-  forall nxt wk parked evs st,
-    forallb (fun o => negb (b_neg o)) (trace nxt wk parked true st evs) = true.
-Proof. exact trace_no_neg. Qed.
-Print Assumptions C24_no_spin_fixed.
+(** ... and corrected as soon as the loop goroutine runs: after the [case <-s.timer.C]
+    arm (from ANY state) s.when is the due time of the tree's minimum, zero if empty. *)
+Theorem C24_when_is_min_due_after_loop_partial :
+  forall nxt wk parked st,
+    let st' := fst (loop nxt wk parked true (fuel_of st) st) in
+    swhen st' = option_map i_when (hd_error (q st')).
+Proof. intros. apply loop_when_top. Qed.
+Print Assumptions C24_when_is_min_due_after_loop_partial.
 
 (** From ANY state, after Release id and through any further events that do not
     Schedule id again, no observation contains an execution of id. *)
@@ -91,7 +105,7 @@ Print Assumptions C24_dispatch_is_pending_next_partial.
 Example C24_nonvacuous :
   let pk := fun id => N.eqb id 2 in
   let evs := [Advance 47; Schedule 1 10 0 30; Schedule 2 7 2 40; Advance 60; Done 2; Advance 61] in
-  let tr := trace every_next wk0 pk false init evs in
+  let tr := trace every_next wk0 pk true init evs in
   spec_full every_next wk0 pk spec0 evs tr = true /\
   length (flat_map b_ex tr) = 5%nat /\ existsb b_spin tr = true /\
   (forall s t, 0 < s -> t < every_next s t)%Z.
